@@ -393,7 +393,24 @@ def resFullOk : String → Bool
     tickets on (the ticket keys are shared through the tls app's session_tickets service) -/
 def resCanResume (p q : Built) : Bool := !p.ticketsOff && !q.ticketsOff
 
+/-- Host values of the `full` cases: what net/http's server passes through untouched -/
+def fullHostOk (h : Bytes) : Bool :=
+  !h.isEmpty && h.all fun c => (97 ≤ c && c ≤ 122) || (65 ≤ c && c ≤ 90) || (48 ≤ c && c ≤ 57) || c == 46 || c == 58 || c == 45
+
 def handle : List String → String
+  | ["full", srv, hs, sni, host] =>
+    match hexField sni, hexField host with
+    | some s, some h =>
+      if !(srv == "a" || srv == "b") || !isAscii s || !e2eSniOk s || !fullHostOk h then "bad-op"
+      else if hs == "f" then "hs=f"
+      else if hs == "ok" then
+        -- server a: [sni secret.test + client auth, catch-all], sites secret.test public.test; server b: [catch-all], site secret.test
+        let ps : List Policy := if srv == "a" then e2ePolicies else [⟨[], false, false⟩]
+        let sites : List Bytes := if srv == "a" then e2eSites else [e2eSecret]
+        let strict := effectiveStrict none ps
+        "hs=ok strict=" ++ bit strict ++ " " ++ showServed (serve strict sites (some s) h)
+      else "bad-op"
+    | _, _ => "bad-op"
   | ["res", x, y] =>
     match resConf x, resConf y with
     | some cx, some cy =>
